@@ -591,6 +591,10 @@ class Builder(object):
 
             self.verifyName(name, command, tokens, index)
 
+            if name in housing.House.Names:
+                msg = "ParseError: Building verb '%s'. House '%s' already exists." % (command, name)
+                raise excepting.ParseError(msg, tokens, index)
+
             self.currentHouse = housing.House(name = name) #also creates .store
             self.houses.append(self.currentHouse)
             self.currentStore = self.currentHouse.store
@@ -654,6 +658,17 @@ class Builder(object):
         share.update(data)
         return share
 
+    def createShare(self, path, command, tokens, index):
+        """Create (or fetch existing) share at path in current store.
+           A path that collides with the store tree (names a node, passes through
+           a share) is a script error
+        """
+        try:
+            return self.currentStore.create(path)
+        except ValueError as ex:
+            msg = "ParseError: Building verb '%s'. Invalid share path '%s'. %s" % (command, path, ex)
+            raise excepting.ParseError(msg, tokens, index)
+
     #Store specific builders
 
     def buildInit(self, command, tokens, index):
@@ -691,7 +706,7 @@ class Builder(object):
                 console.terse("     Warning: Init of non-preexistent share {0} ..."
                         " creating anyway\n".format(destinationPath))
 
-            destination = self.currentStore.create(destinationPath)
+            destination = self.createShare(destinationPath, command, tokens, index)
 
             connective = tokens[index]
             index += 1
@@ -884,6 +899,10 @@ class Builder(object):
 
         if index != len(tokens):
             msg = "ParseError: Building verb '%s'. Unused tokens." % (command,)
+            raise excepting.ParseError(msg, tokens, index)
+
+        if name in serving.Server.Names:
+            msg = "ParseError: Building verb '%s'. Task '%s' already exists." % (command, name)
             raise excepting.ParseError(msg, tokens, index)
 
         prefix += '/' + self.currentHouse.name #extra slashes are ignored
@@ -1239,7 +1258,7 @@ class Builder(object):
                 if not tag:
                     tag = parts[-1]
 
-                share = self.currentStore.create(path) #create so no errors at runtime
+                share = self.createShare(path, command, tokens, index) #create so no errors at runtime
                 if not isinstance(share, storing.Share): #verify path ends in share not node
                     msg = "Error building %s. Loggee path %s not Share." % (command, path)
                     raise excepting.ParseError(msg, tokens, index)
